@@ -1,13 +1,221 @@
-//! C07 layer 3: harness-owned schedules over instrumented yield points (hooks).
+//! C07 layer 3: schedule perturbation at the instrumented yield points.
+//!
+//! OxiDD (built with `--cfg oxidd_verif`) calls `oxidd_core::verif::yield_point(id)` before a
+//! level of the unique table is locked (1), when a node slot is allocated (2) or freed (9), at the
+//! phases of a garbage collection (3 before the apply cache is locked, 4 after, 5 before each
+//! level, 6 before the cache is unlocked) and before apply-cache lookups (7) and insertions (8).
+//! The harness installs a callback that - as a pure function of the schedule seed, the calling
+//! thread's index and its call counter - yields, spins or sleeps there. This does not own the
+//! schedule (blocking primitives inside OxiDD are not intercepted) but it moves preemptions to
+//! the places where invariants are temporarily open, under three policies:
+//!   mode 0  every thread is perturbed with probability 1/8 per point;
+//!   mode 1  one victim thread is stalled (0.2..2 ms) whenever it reaches one chosen kind of point
+//!           (e.g. the collector right after the apply cache was cleared), the others run freely;
+//!   mode 2  priorities: thread i spins i * k iterations at every point (threads overtake each
+//!           other in a fixed order), with a few seeded priority inversions.
+//! Scenarios and oracle are those of layers 2 / 2b.
+
+use std::cell::Cell;
 use std::io::Write;
+use std::sync::atomic::{AtomicBool, AtomicU64, Ordering::Relaxed};
 
-use serde_json::Value;
+use proptest::prelude::*;
+use serde::{Deserialize, Serialize};
+use serde_json::{Value, json};
 
-use crate::engine::Cfg;
+use crate::c07::{CStat, Scen, conc_strategy, scen_isolated_with, tight_strategy};
+use crate::engine::*;
+use crate::kinds::*;
 
-pub fn add_jobs<'a>(_cfg: &'a Cfg, _jobs: &mut Vec<Box<dyn FnMut(&mut dyn Write) + 'a>>, _names: &mut Vec<String>) {}
+static ACTIVE: AtomicBool = AtomicBool::new(false);
+static SEED: AtomicU64 = AtomicU64::new(0);
+static MODE: AtomicU64 = AtomicU64::new(0);
+static NEXT_TAG: AtomicU64 = AtomicU64::new(0);
+pub static ACTIONS: AtomicU64 = AtomicU64::new(0);
 
-pub fn replay(_cfg: &Cfg, _path: &str, _case: &Value) -> i32 {
-    println!("replay: schedule replay not available");
-    2
+thread_local! {
+    static TAG: Cell<u64> = const { Cell::new(u64::MAX) };
+    static COUNT: Cell<u64> = const { Cell::new(0) };
+}
+
+#[inline]
+fn spin(n: u64) {
+    for _ in 0..n {
+        std::hint::spin_loop();
+    }
+}
+
+fn perturb(id: u32) {
+    if !ACTIVE.load(Relaxed) {
+        return;
+    }
+    let tag = TAG.with(|t| {
+        if t.get() == u64::MAX {
+            t.set(NEXT_TAG.fetch_add(1, Relaxed));
+        }
+        t.get()
+    });
+    let c = COUNT.with(|c| {
+        c.set(c.get() + 1);
+        c.get()
+    });
+    let seed = SEED.load(Relaxed);
+    let h = mix(seed ^ (tag << 48) ^ (c << 8) ^ id as u64);
+    match MODE.load(Relaxed) {
+        0 => {
+            if h % 8 == 0 {
+                ACTIONS.fetch_add(1, Relaxed);
+                match (h >> 8) % 8 {
+                    0..=3 => std::thread::yield_now(),
+                    4..=6 => spin(50 + (h >> 16) % 3000),
+                    _ => std::thread::sleep(std::time::Duration::from_micros(20 + (h >> 16) % 200)),
+                }
+            }
+        }
+        1 => {
+            // victim thread and point kind are functions of the seed
+            let victim = (seed >> 8) % 6;
+            let point = 1 + (seed >> 16) % 9;
+            if tag % 6 == victim && id as u64 == point && h % 2 == 0 {
+                ACTIONS.fetch_add(1, Relaxed);
+                std::thread::sleep(std::time::Duration::from_micros(200 + (h >> 16) % 1800));
+            }
+        }
+        _ => {
+            let k = 20 + (seed >> 8) % 400;
+            let inverted = h % 64 == 0;
+            let prio = if inverted { 7 - tag % 8 } else { tag % 8 };
+            if prio > 0 {
+                ACTIONS.fetch_add(1, Relaxed);
+                spin(prio * k);
+            }
+        }
+    }
+}
+
+/// switched on by c07::run_scen around the concurrent phase only
+pub fn activate(on: bool) {
+    ACTIVE.store(on, Relaxed);
+}
+
+#[derive(Clone, Debug, Serialize, Deserialize)]
+pub struct Sched {
+    pub seed: u64,
+    pub mode: u8,
+}
+
+fn install(s: &Sched) {
+    SEED.store(s.seed, Relaxed);
+    MODE.store(s.mode as u64, Relaxed);
+    NEXT_TAG.store(0, Relaxed);
+    ACTIONS.store(0, Relaxed);
+    oxidd_core::verif::set_yield_hook(Some(perturb));
+}
+
+fn run_one<K: BoolKind>(s: &Scen, sc: &Sched) -> Result<CStat, String> {
+    let sc = sc.clone();
+    scen_isolated_with::<K>(s, move || install(&sc), || ACTIONS.load(Relaxed))
+}
+
+fn campaign<K: BoolKind>(seed: u64, cases: u32, tight: bool, rep: &mut Report) {
+    let mut nt = 0u64;
+    let mut evals = 0u64;
+    let mut actions = 0u64;
+    let mut sample = None;
+    let mut timeouts = 0u64;
+    let sched = (any::<u64>(), 0u8..3).prop_map(|(seed, mode)| Sched { seed, mode });
+    let test = |(s, sc): &(Scen, Sched)| match run_one::<K>(s, sc) {
+        Err(m) if m.starts_with("harness") => Ok(CStat { threads: usize::MAX - 1, ..Default::default() }),
+        Err(m) if m.starts_with("timeout") => Ok(CStat { threads: usize::MAX, ..Default::default() }),
+        r => r,
+    };
+    let mut after = |(s, sc): &(Scen, Sched), r: &Result<CStat, String>| {
+        if let Ok(st) = r {
+            if st.threads == usize::MAX - 1 {
+                return; // store too tight for the set-up of this scenario: skipped
+            }
+            if st.threads == usize::MAX {
+                timeouts += 1;
+                return;
+            }
+            evals += st.results.max(1);
+            actions += st.perturbations;
+            if st.threads >= 2 && st.results >= 6 && st.perturbations >= 20 {
+                nt += 1;
+                if sample.is_none() {
+                    sample = Some(json!({"kind": K::NAME, "layer": "3", "scen": s, "schedule": sc, "perturbations": st.perturbations}));
+                }
+            }
+        }
+    };
+    let out = if tight { crate::pt::run2(seed, cases, &(tight_strategy(), sched), |_| {}, &mut after, test) } else { crate::pt::run2(seed, cases, &(conc_strategy(), sched), |_| {}, &mut after, test) };
+    let lname = if tight { "3b" } else { "3" };
+    rep.evaluations += evals;
+    rep.nontrivial += nt;
+    rep.class_n(&format!("{}.layer{lname}.scenarios", K::NAME), out.cases);
+    rep.class_n(&format!("{}.layer{lname}.perturbation_actions", K::NAME), actions);
+    if timeouts > 0 {
+        rep.inconclusive.push(format!("{} layer {lname}: watchdog expired for {timeouts} scenario(s)", K::NAME));
+    }
+    if let Some(s) = sample {
+        rep.sample(s);
+    }
+    if let Some(((s, sc), msg)) = out.failure {
+        rep.viol(format!("C07/{}/layer{lname}/{}", K::NAME, crate::hrun::category(&msg)), msg, json!({"kind": K::NAME, "layer": lname, "scen": s, "schedule": sc}));
+    }
+}
+
+pub fn add_jobs<'a>(cfg: &'a Cfg, jobs: &mut Vec<Box<dyn FnMut(&mut dyn Write) + 'a>>, names: &mut Vec<String>) {
+    macro_rules! add_kind {
+        ($K:ty, $salt:expr) => {
+            for sh in 0..cfg.t(1, 3) {
+                for tight in [false, true] {
+                    let seed = mix(cfg.seed ^ (0xc07_500 + $salt * 100 + sh as u64 * 2 + tight as u64));
+                    let cases = cfg.t(if tight { 200 } else { 400 }, 4000);
+                    names.push(format!("layer3{}/{}/{}", if tight { "b" } else { "" }, <$K>::NAME, sh));
+                    jobs.push(Box::new(move |w: &mut dyn Write| {
+                        let mut rep = Report::default();
+                        campaign::<$K>(seed, cases, tight, &mut rep);
+                        rep.emit(w);
+                    }));
+                }
+            }
+        };
+    }
+    add_kind!(BddK, 1);
+    add_kind!(BcddK, 2);
+    add_kind!(ZbddK, 3);
+}
+
+pub fn replay(_cfg: &Cfg, path: &str, case: &Value) -> i32 {
+    let (Ok(s), Ok(sc)) = (serde_json::from_value::<Scen>(case["scen"].clone()), serde_json::from_value::<Sched>(case["schedule"].clone())) else {
+        println!("replay: not a layer-3 case");
+        return 2;
+    };
+    let mut r = Ok(CStat::default());
+    // the perturbation is a function of the seed, the OS still has a say: several attempts
+    for _ in 0..8 {
+        r = match case["kind"].as_str().unwrap_or("bdd") {
+            "bdd" => run_one::<BddK>(&s, &sc),
+            "bcdd" => run_one::<BcddK>(&s, &sc),
+            _ => run_one::<ZbddK>(&s, &sc),
+        };
+        if r.is_err() {
+            break;
+        }
+    }
+    match r {
+        Ok(_) => {
+            println!("replay: scenario passes (perturbed schedules: best effort, 8 attempts)");
+            0
+        }
+        Err(m) if m.starts_with("timeout") => {
+            println!("INCONCLUSIVE: {m}");
+            2
+        }
+        Err(m) => {
+            println!("VIOLATION property=C07 replay={path}\n  what: {m}");
+            1
+        }
+    }
 }
